@@ -34,7 +34,10 @@ fn feed(c: &mut Conn, bytes: &[u8]) -> Result<(Vec<SpecRequest>, Option<String>)
 }
 
 fn judge(slice: &[u8], t: &mut crate::par::Tally, what: &str) {
-    let limit = 51200usize;
+    judge_with(slice, t, what, 51200);
+}
+
+fn judge_with(slice: &[u8], t: &mut crate::par::Tally, what: &str, limit: usize) {
     let one = util::catch(|| Request::try_from(slice, None).map(|r| view_request(&r)));
     let one = match one {
         Ok(x) => x,
@@ -264,6 +267,31 @@ pub fn run(thorough: bool) -> Vec<Part> {
         |pad| format!("big head pad {}", pad),
     );
     t2.record(&mut part, "heads-larger-than-the-buffer");
+    // request-line lengths around the line limit; bodies beyond the default limit under a raised one
+    let t4 = par_enum(
+        260,
+        workers(),
+        300,
+        |i, t| {
+            if i < 250 {
+                let l = 880 + i as usize; // request line length without CRLF
+                for method in ["GET", "PATCH"] {
+                    let fill = l - method.len() - 2 - 9;
+                    let mut s = format!("{} /", method).into_bytes();
+                    s.extend(std::iter::repeat(b'u').take(fill));
+                    s.extend_from_slice(b" HTTP/1.1\r\nX-a: 1\r\n\r\n");
+                    judge(&s, t, &format!("request line of {} bytes", l));
+                }
+            } else {
+                let n = [51200usize, 51201, 60000, 65535, 65536, 65537, 70000, 131072, 1 << 17, 200000][(i - 250) as usize];
+                let mut s = format!("PUT /b HTTP/1.1\r\nContent-Length: {}\r\n\r\n", n).into_bytes();
+                s.extend((0..n).map(|j| (j % 251) as u8));
+                judge_with(&s, t, &format!("body of {} bytes under limit 300000", n), 300000);
+            }
+        },
+        |i| format!("length case {}", i),
+    );
+    t4.record(&mut part, "line-and-body-length-sweeps");
     part.set("rule", json!("every (base, corruption, trailer) triple is a distinct slice; non-trivial = the connection turns the slice into exactly one request with nothing left over (the <= direction applies)"));
     part.set("exhaustive", json!(true));
     vec![part]
